@@ -66,7 +66,9 @@ End == /\ IsEvent("endcase")
                             codes |-> codes])>>)
              ELSE IF C19_DeriveBad(items) # {}
              THEN /\ nbad' = nbad + 1
-                  /\ PrintT(<<"BAD", ToJson([l |-> l, case |-> Rec[l].case, prop |-> "C19", diag |-> "C19/TraitDerivedTwice",
+                  /\ PrintT(<<"BAD", ToJson([l |-> l, case |-> Rec[l].case, prop |-> "C19",
+                            diag |-> IF DerivedTwice(items[CHOOSE i \in C19_DeriveBad(items) : TRUE])
+                                     THEN "C19/TraitDerivedTwice" ELSE "C19/PromisedTraitNotDerived",
                             fam |-> cur.fam, id |-> cur.id, mode |-> cur.mode, sidx |-> cur.sidx,
                             ty |-> items[CHOOSE i \in C19_DeriveBad(items) : TRUE].name, known |-> {},
                             codes |-> codes])>>)
